@@ -93,6 +93,11 @@ Proof.
   - simpl. le_same.
 Qed.
 
+Lemma le_netcdf_name_m m b s : le s (snd (netcdf_name_m m b s)).
+Proof.
+  unfold netcdf_name_m. destruct (m_dry m && fx_norename (m_var m)); [simpl; le_same | apply le_netcdf_name].
+Qed.
+
 Lemma le_write_var m n dims c attrs refs s : le s (write_var m n dims c attrs refs s).
 Proof.
   unfold write_var. eapply le_trans; [|apply le_create_var]. le_same.
@@ -105,19 +110,19 @@ Proof.
   destruct (find _ (w_bdims s)) as [d|].
   - (* existing bounds dimension *)
     destruct (find_seen _ _ _ s) as [e0|]; simpl; [le_same|].
-    match goal with |- context [netcdf_name ?b ?s0] => pose proof (le_netcdf_name b s0) as Hn;
-      destruct (netcdf_name b s0) as [bv s3] eqn:En end. simpl in *.
+    match goal with |- context [netcdf_name_m ?mm ?b ?s0] => pose proof (le_netcdf_name_m mm b s0) as Hn;
+      destruct (netcdf_name_m mm b s0) as [bv s3] eqn:En end. simpl in *.
     eapply le_trans; [|le_same].
     eapply le_trans; [|apply le_write_var].
     eapply le_trans; [|exact Hn].
     destruct (negb _); [|apply le_refl].
     eapply le_trans; [|apply le_create_dim]. le_same.
-  - match goal with |- context [netcdf_name ?b ?s0] => pose proof (le_netcdf_name b s0) as Hn0;
-      destruct (netcdf_name b s0) as [n0 s0'] eqn:En0 end. simpl in Hn0.
+  - match goal with |- context [netcdf_name_m ?mm ?b ?s0] => pose proof (le_netcdf_name_m mm b s0) as Hn0;
+      destruct (netcdf_name_m mm b s0) as [n0 s0'] eqn:En0 end. simpl in Hn0.
     destruct (find_seen _ _ _ _) as [e0|]; simpl.
     + eapply le_trans; [exact Hn0|]. eapply le_trans; [|le_same]. le_same.
-    + match goal with |- context [netcdf_name ?b ?s0] => pose proof (le_netcdf_name b s0) as Hn;
-        destruct (netcdf_name b s0) as [bv s3] eqn:En end. simpl in *.
+    + match goal with |- context [netcdf_name_m ?mm ?b ?s0] => pose proof (le_netcdf_name_m mm b s0) as Hn;
+        destruct (netcdf_name_m mm b s0) as [bv s3] eqn:En end. simpl in *.
       eapply le_trans; [|le_same].
       eapply le_trans; [|apply le_write_var].
       eapply le_trans; [|exact Hn].
@@ -128,9 +133,9 @@ Proof.
 Qed.
 
 Ltac with_name :=
-  match goal with |- context [netcdf_name ?b ?s0] =>
+  match goal with |- context [netcdf_name_m ?mm ?b ?s0] =>
     let H := fresh "Hn" in let E := fresh "En" in
-    pose proof (le_netcdf_name b s0) as H; destruct (netcdf_name b s0) eqn:E; simpl in H end.
+    pose proof (le_netcdf_name_m mm b s0) as H; destruct (netcdf_name_m mm b s0) eqn:E; simpl in H end.
 
 Ltac with_bounds :=
   match goal with |- context [write_bounds ?m ?k ?c ?cd ?cv ?s0] =>
@@ -140,9 +145,9 @@ Ltac with_bounds :=
 Lemma le_dimcoord_name m ax k c s : le s (snd (dimcoord_name m ax k c s)).
 Proof.
   unfold dimcoord_name. destruct (fx_dimname (m_var m)).
-  - destruct (a_ncdim ax); destruct (k_ncvar k); try destruct (name_of k c None); apply le_netcdf_name.
-  - destruct (name_of k c None); [apply le_netcdf_name|].
-    destruct (a_ncdim ax); [apply le_refl | apply le_netcdf_name].
+  - destruct (a_ncdim ax); destruct (k_ncvar k); try destruct (name_of k c None); apply le_netcdf_name_m.
+  - destruct (name_of k c None); [apply le_netcdf_name_m|].
+    destruct (a_ncdim ax); [apply le_refl | apply le_netcdf_name_m].
 Qed.
 
 Lemma le_write_dimcoord m used ax k c s : le s (snd (write_dimcoord m used ax k c s)).
@@ -306,6 +311,9 @@ Proof.
   unfold dry_run. eapply le_trans; [|le_same]. eapply le_trans; [|apply le_write_fields]. le_same.
 Qed.
 
+Lemma le_register_names vr e s : le s (register_names vr e s).
+Proof. unfold register_names. destruct (fx_names vr); [le_same | apply le_refl]. Qed.
+
 Lemma le_post_pass vr o new s :
   le s (log [EClose] (write_fields (post_mode vr) new
          (write_globals (post_mode vr) o new (reopen (log [EOpenA] s))))).
@@ -321,7 +329,7 @@ Proof.
   - apply (proj1 (le_set_err (init e))), ext_init.
   - assert (H1 : ext e (dry_run vr e orig)) by (apply (proj1 (le_dry_run vr e orig)), ext_init).
     destruct (w_err _); [exact H1|].
-    apply (proj1 (le_post_pass vr o new _)), H1.
+    apply (proj1 (le_post_pass vr o new _)), (proj1 (le_register_names vr e _)), H1.
 Qed.
 
 Theorem preserve vr nc4 o e orig new : extends e (fst (append vr nc4 o e orig new)).
@@ -443,7 +451,7 @@ Proof.
   unfold write_aux. destruct (find_seen false (k_c k) (Some d) s) as [e|] eqn:E.
   - intro H. inversion H; subst. left. apply find_seen_sound in E as (A & B & C). exists e. auto.
   - intro H. right. split; [reflexivity|].
-    destruct (netcdf_name _ s) as [n1 s1]. destruct (write_bounds _ _ _ _ _ s1) as [ex s2].
+    destruct (netcdf_name_m _ _ s) as [n1 s1]. destruct (write_bounds _ _ _ _ _ s1) as [ex s2].
     inversion H; subst. apply write_var_seen.
 Qed.
 
@@ -457,7 +465,7 @@ Proof.
   unfold write_msr. destruct (find_seen false (k_c k) (Some d) s) as [e|] eqn:E.
   - intro H. inversion H; subst. left. apply find_seen_sound in E as (A & B & C). exists e. auto.
   - intro H. right. split; [reflexivity|].
-    destruct (netcdf_name _ s) as [n1 s1]. inversion H; subst. apply write_var_seen.
+    destruct (netcdf_name_m _ _ s) as [n1 s1]. inversion H; subst. apply write_var_seen.
 Qed.
 
 Theorem anc_shared_only_if_equal m k d df s nv s' :
@@ -470,7 +478,7 @@ Proof.
   unfold write_anc. destruct (find_seen true (k_c k) (Some d) s) as [e|] eqn:E.
   - intro H. inversion H; subst. left. apply find_seen_sound in E as (A & B & C). exists e. auto.
   - intro H. right. split; [reflexivity|].
-    destruct (netcdf_name _ s) as [n1 s1]. destruct (write_bounds _ _ _ _ _ s1) as [ex s2].
+    destruct (netcdf_name_m _ _ s) as [n1 s1]. destruct (write_bounds _ _ _ _ _ s1) as [ex s2].
     inversion H; subst. apply write_var_seen.
 Qed.
 
@@ -697,13 +705,13 @@ Proof.
   set (s1 := dry_run vr e orig).
   pose proof (le_dry_run vr e orig) as L1. fold s1 in L1.
   destruct (w_err s1) eqn:E1; [rewrite E1; discriminate|].
-  set (s2 := write_globals (post_mode vr) o new (reopen (log [EOpenA] s1))).
+  set (s2 := write_globals (post_mode vr) o new (reopen (log [EOpenA] (register_names vr e s1)))).
   destruct (w_err (log [EClose] (write_fields (post_mode vr) new s2))) eqn:E2; [discriminate|].
   intros _. change (w_err (write_fields (post_mode vr) new s2) = false) in E2.
   pose proof (write_fields_add (post_mode vr) new s2 eq_refl E2) as H.
   assert (L2 : le s1 s2).
   { unfold s2. eapply le_trans; [|apply le_write_globals; reflexivity].
-    eapply le_trans; [|apply le_reopen]. le_same. }
+    eapply le_trans; [|apply le_reopen]. eapply le_trans; [apply (le_register_names vr e)|]. le_same. }
   destruct L1 as (_ & _ & Ln). destruct L2 as (_ & _ & Ln2). unfold nvars in *.
   change (d_vars (w_file (log [EClose] (write_fields (post_mode vr) new s2))))
     with (d_vars (w_file (write_fields (post_mode vr) new s2))).
@@ -811,6 +819,11 @@ Proof.
   - simpl. sm_same.
 Qed.
 
+Lemma sm_netcdf_name_m mm b s : sm s (snd (netcdf_name_m mm b s)).
+Proof.
+  unfold netcdf_name_m. destruct (m_dry mm && fx_norename (m_var mm)); [simpl; sm_same | apply sm_netcdf_name].
+Qed.
+
 Lemma sm_write_var n dims c attrs refs s : sm s (write_var m n dims c attrs refs s).
 Proof.
   unfold write_var. eapply sm_trans; [|apply sm_create_var]. sm_same.
@@ -823,19 +836,19 @@ Proof.
   destruct (find _ (w_bdims s)) as [d|].
   - (* existing bounds dimension *)
     destruct (find_seen _ _ _ s) as [e0|]; simpl; [sm_same|].
-    match goal with |- context [netcdf_name ?b ?s0] => pose proof (sm_netcdf_name b s0) as Hn;
-      destruct (netcdf_name b s0) as [bv s3] eqn:En end. simpl in *.
+    match goal with |- context [netcdf_name_m ?mm ?b ?s0] => pose proof (sm_netcdf_name_m mm b s0) as Hn;
+      destruct (netcdf_name_m mm b s0) as [bv s3] eqn:En end. simpl in *.
     eapply sm_trans; [|sm_same].
     eapply sm_trans; [|apply sm_write_var].
     eapply sm_trans; [|exact Hn].
     destruct (negb _); [|apply sm_refl].
     eapply sm_trans; [|apply sm_create_dim]. sm_same.
-  - match goal with |- context [netcdf_name ?b ?s0] => pose proof (sm_netcdf_name b s0) as Hn0;
-      destruct (netcdf_name b s0) as [n0 s0'] eqn:En0 end. simpl in Hn0.
+  - match goal with |- context [netcdf_name_m ?mm ?b ?s0] => pose proof (sm_netcdf_name_m mm b s0) as Hn0;
+      destruct (netcdf_name_m mm b s0) as [n0 s0'] eqn:En0 end. simpl in Hn0.
     destruct (find_seen _ _ _ _) as [e0|]; simpl.
     + eapply sm_trans; [exact Hn0|]. eapply sm_trans; [|sm_same]. sm_same.
-    + match goal with |- context [netcdf_name ?b ?s0] => pose proof (sm_netcdf_name b s0) as Hn;
-        destruct (netcdf_name b s0) as [bv s3] eqn:En end. simpl in *.
+    + match goal with |- context [netcdf_name_m ?mm ?b ?s0] => pose proof (sm_netcdf_name_m mm b s0) as Hn;
+        destruct (netcdf_name_m mm b s0) as [bv s3] eqn:En end. simpl in *.
       eapply sm_trans; [|sm_same].
       eapply sm_trans; [|apply sm_write_var].
       eapply sm_trans; [|exact Hn].
@@ -846,9 +859,9 @@ Proof.
 Qed.
 
 Ltac with_name_sm :=
-  match goal with |- context [netcdf_name ?b ?s0] =>
+  match goal with |- context [netcdf_name_m ?mm ?b ?s0] =>
     let H := fresh "Hn" in let E := fresh "En" in
-    pose proof (sm_netcdf_name b s0) as H; destruct (netcdf_name b s0) eqn:E; simpl in H end.
+    pose proof (sm_netcdf_name_m mm b s0) as H; destruct (netcdf_name_m mm b s0) eqn:E; simpl in H end.
 
 Ltac with_bounds_sm :=
   match goal with |- context [write_bounds ?m ?k ?c ?cd ?cv ?s0] =>
@@ -858,9 +871,9 @@ Ltac with_bounds_sm :=
 Lemma sm_dimcoord_name ax k c s : sm s (snd (dimcoord_name m ax k c s)).
 Proof.
   unfold dimcoord_name. destruct (fx_dimname (m_var m)).
-  - destruct (a_ncdim ax); destruct (k_ncvar k); try destruct (name_of k c None); apply sm_netcdf_name.
-  - destruct (name_of k c None); [apply sm_netcdf_name|].
-    destruct (a_ncdim ax); [apply sm_refl | apply sm_netcdf_name].
+  - destruct (a_ncdim ax); destruct (k_ncvar k); try destruct (name_of k c None); apply sm_netcdf_name_m.
+  - destruct (name_of k c None); [apply sm_netcdf_name_m|].
+    destruct (a_ncdim ax); [apply sm_refl | apply sm_netcdf_name_m].
 Qed.
 
 Lemma sm_write_dimcoord used ax k c s : sm s (snd (write_dimcoord m used ax k c s)).
@@ -1003,87 +1016,84 @@ Definition rnames (refs : list (string * list (string * string))) : list string 
    variables created so far are not variables of E; the file is E plus
    variables whose names are not names of E and which refer to no data
    variable of E *)
-Record Inv (e : file) (s : wst) : Prop := {
-  i_names : forall n, In n (names_of e) -> In n (existing s);
-  i_seen : forall en, In en (w_seen s) -> ~ In (e_ncvar en) (dnames e);
-  i_bnds : forall p, In p (w_bnds s) -> ~ In (snd p) (dnames e);
+Record Inv (NN DD : list string) (e : file) (s : wst) : Prop := {
+  i_dn : forall n, In n DD -> In n NN;
+  i_vn : forall n, In n (map v_name (d_vars e)) -> In n NN;
+  i_names : forall n, In n NN -> In n (existing s);
+  i_seen : forall en, In en (w_seen s) -> ~ In (e_ncvar en) DD;
+  i_bnds : forall p, In p (w_bnds s) -> ~ In (snd p) DD;
   i_created : forall n, In n (w_created s) -> ~ In n (map v_name (d_vars e));
   i_file : exists vv, d_vars (w_file s) = d_vars e ++ vv /\
-           forall w, In w vv -> ~ In (v_name w) (names_of e) /\
-                                forall n, In n (ref_names w) -> ~ In n (dnames e) }.
+           forall w, In w vv -> ~ In (v_name w) NN /\
+                                forall n, In n (ref_names w) -> ~ In n DD }.
 
-Lemma dnames_names e n : In n (dnames e) -> In n (names_of e).
-Proof.
-  unfold dnames, names_of, data_vars. intro H. apply in_map_iff in H as [v [<- Hv]].
-  apply filter_In in Hv as [Hv _]. apply in_or_app. right. apply in_or_app. left. apply in_map, Hv.
-Qed.
 
-Lemma varnames_names e n : In n (map v_name (d_vars e)) -> In n (names_of e).
-Proof. intro H. unfold names_of. apply in_or_app. right. apply in_or_app. left. exact H. Qed.
 
-Lemma inv_same e s s' :
+
+
+Lemma inv_same NN DD e s s' :
   w_names s' = w_names s -> w_dimsz s' = w_dimsz s -> w_seen s' = w_seen s -> w_bnds s' = w_bnds s ->
-  w_created s' = w_created s -> w_file s' = w_file s -> Inv e s -> Inv e s'.
+  w_created s' = w_created s -> w_file s' = w_file s -> Inv NN DD e s -> Inv NN DD e s'.
 Proof.
-  intros A B C D E F [H1 H2 H3 H4 H5].
+  intros A B C D E F [Hdn Hvn H1 H2 H3 H4 H5].
   constructor; unfold existing in *; rewrite ?A, ?B, ?C, ?D, ?E, ?F; auto.
 Qed.
 Ltac inv_same := apply inv_same; reflexivity.
 
-Lemma inv_upd_names e n s : Inv e s -> Inv e (upd_names (cons n) s).
+Lemma inv_upd_names NN DD e n s : Inv NN DD e s -> Inv NN DD e (upd_names (cons n) s).
 Proof.
-  intros [H1 H2 H3 H4 H5]. constructor; auto.
+  intros [Hdn Hvn H1 H2 H3 H4 H5]. constructor; auto.
   intros x Hx. specialize (H1 x Hx). unfold existing in *. simpl. right. exact H1.
 Qed.
 
-Lemma inv_upd_dimsz e p s : Inv e s -> Inv e (upd_dimsz (cons p) s).
+Lemma inv_upd_dimsz NN DD e p s : Inv NN DD e s -> Inv NN DD e (upd_dimsz (cons p) s).
 Proof.
-  intros [H1 H2 H3 H4 H5]. constructor; auto.
+  intros [Hdn Hvn H1 H2 H3 H4 H5]. constructor; auto.
   intros x Hx. specialize (H1 x Hx). unfold existing in *. simpl.
   apply in_app_or in H1 as [H1 | H1]; apply in_or_app; [left | right; right]; exact H1.
 Qed.
 
-Lemma inv_upd_seen e en s :
-  ~ In (e_ncvar en) (dnames e) -> Inv e s -> Inv e (upd_seen (fun l => l ++ [en]) s).
+Lemma inv_upd_seen NN DD e en s :
+  ~ In (e_ncvar en) DD -> Inv NN DD e s -> Inv NN DD e (upd_seen (fun l => l ++ [en]) s).
 Proof.
-  intros Hn [H1 H2 H3 H4 H5]. constructor; auto.
+  intros Hn [Hdn Hvn H1 H2 H3 H4 H5]. constructor; auto.
   intros x Hx. simpl in Hx. apply in_app_or in Hx as [Hx | [<- | []]]; auto.
 Qed.
 
-Lemma inv_upd_bnds e p s : ~ In (snd p) (dnames e) -> Inv e s -> Inv e (upd_bnds (cons p) s).
+Lemma inv_upd_bnds NN DD e p s : ~ In (snd p) DD -> Inv NN DD e s -> Inv NN DD e (upd_bnds (cons p) s).
 Proof.
-  intros Hn [H1 H2 H3 H4 H5]. constructor; auto.
+  intros Hn [Hdn Hvn H1 H2 H3 H4 H5]. constructor; auto.
   intros x [<- | Hx]; auto.
 Qed.
 
-Lemma inv_upd_bdims e f s : Inv e s -> Inv e (upd_bdims f s).
+Lemma inv_upd_bdims NN DD e f s : Inv NN DD e s -> Inv NN DD e (upd_bdims f s).
 Proof. inv_same. Qed.
-Lemma inv_upd_span e f s : Inv e s -> Inv e (upd_span f s).
+Lemma inv_upd_span NN DD e f s : Inv NN DD e s -> Inv NN DD e (upd_span f s).
 Proof. inv_same. Qed.
-Lemma inv_set_err e s : Inv e s -> Inv e (set_err s).
+Lemma inv_set_err NN DD e s : Inv NN DD e s -> Inv NN DD e (set_err s).
 Proof. inv_same. Qed.
-Lemma inv_log e ev s : Inv e s -> Inv e (log ev s).
+Lemma inv_log NN DD e ev s : Inv NN DD e s -> Inv NN DD e (log ev s).
 Proof. inv_same. Qed.
-Lemma inv_set_gl e gl s : Inv e s -> Inv e (set_gl gl s).
+Lemma inv_set_gl NN DD e gl s : Inv NN DD e s -> Inv NN DD e (set_gl gl s).
 Proof. inv_same. Qed.
-Lemma inv_reopen e s : Inv e s -> Inv e (reopen s).
-Proof. intros [H1 H2 H3 H4 H5]. constructor; auto; try (intros n []). Qed.
+Lemma inv_reopen NN DD e s : Inv NN DD e s -> Inv NN DD e (reopen s).
+Proof. intros [Hdn Hvn H1 H2 H3 H4 H5]. constructor; auto; try (intros n []). Qed.
 
-Lemma inv_create_dim e m n z s : Inv e s -> Inv e (create_dim m n z s).
+Lemma inv_create_dim NN DD e vr n z s : Inv NN DD e s -> Inv NN DD e (create_dim (post_mode vr) n z s).
 Proof.
-  intro H. unfold create_dim. destruct (m_dry m || w_err s); [exact H|].
+  intro H. unfold create_dim. destruct (m_dry (post_mode vr) || w_err s); [exact H|].
   destruct (smem n _); [apply inv_set_err, H|].
-  destruct H as [H1 H2 H3 H4 H5]. constructor; auto.
+  destruct H as [Hdn Hvn H1 H2 H3 H4 H5]. constructor; auto.
 Qed.
 
-Lemma inv_create_var e m v s :
-  ~ In (v_name v) (names_of e) -> (forall n, In n (ref_names v) -> ~ In n (dnames e)) ->
-  Inv e s -> Inv e (create_var m v s).
+Lemma inv_create_var NN DD e vr v s :
+  ~ In (v_name v) NN -> (forall n, In n (ref_names v) -> ~ In n DD) ->
+  Inv NN DD e s -> Inv NN DD e (create_var (post_mode vr) v s).
 Proof.
-  intros Hn Hr H. unfold create_var. destruct (m_dry m || w_err s); [exact H|].
+  intros Hn Hr H. unfold create_var. destruct (m_dry (post_mode vr) || w_err s); [exact H|].
   destruct (smem (v_name v) _); [apply inv_set_err, H|].
-  destruct H as [H1 H2 H3 H4 H5]. constructor; auto.
-  - intros x [<- | Hx]; [|auto]. intro Hin. apply Hn, varnames_names, Hin.
+  destruct H as [Hdn Hvn H1 H2 H3 H4 H5]. constructor; auto.
+  - intros x [<- | Hx]; [|auto]. intro Hin. apply Hn, Hvn, Hin.
   - destruct H5 as [vv [Hv Hall]]. exists (vv ++ [v]). simpl. split.
     + rewrite Hv, app_assoc. reflexivity.
     + intros w Hw. apply in_app_or in Hw as [Hw | [<- | []]]; auto.
@@ -1099,12 +1109,12 @@ Proof.
   - right. simpl in H. rewrite app_nil_r in H. exact H.
 Qed.
 
-Lemma inv_set_created_ref e m n a l s :
-  (forall x, In x (map snd l) -> ~ In x (dnames e)) -> Inv e s -> Inv e (set_created_ref m n a l s).
+Lemma inv_set_created_ref NN DD e vr n a l s :
+  (forall x, In x (map snd l) -> ~ In x DD) -> Inv NN DD e s -> Inv NN DD e (set_created_ref (post_mode vr) n a l s).
 Proof.
-  intros Hl H. unfold set_created_ref. destruct (m_dry m || w_err s); [exact H|].
+  intros Hl H. unfold set_created_ref. destruct (m_dry (post_mode vr) || w_err s); [exact H|].
   destruct (smem n (w_created s)) eqn:E; [|exact H].
-  destruct H as [H1 H2 H3 H4 H5]. constructor; auto.
+  destruct H as [Hdn Hvn H1 H2 H3 H4 H5]. constructor; auto.
   destruct H5 as [vv [Hv Hall]].
   set (g := fun v => if String.eqb (v_name v) n then add_ref a l v else v).
   exists (map g vv). simpl. split.
@@ -1118,30 +1128,35 @@ Proof.
     split; [exact Ha|]. intros x Hx. apply ref_names_add_ref in Hx as [Hx | Hx]; auto.
 Qed.
 
-Lemma inv_netcdf_name e b s :
-  Inv e s -> Inv e (snd (netcdf_name b s)) /\ ~ In (fst (netcdf_name b s)) (names_of e).
+Lemma inv_netcdf_name NN DD e b s :
+  Inv NN DD e s -> Inv NN DD e (snd (netcdf_name b s)) /\ ~ In (fst (netcdf_name b s)) NN.
 Proof.
   intro H. destruct (netcdf_name_fresh b s) as [n [-> Hn]]. simpl. split.
   - apply inv_upd_names, H.
-  - intro Hin. apply Hn. apply (i_names _ _ H), Hin.
+  - intro Hin. apply Hn. apply (i_names _ _ _ _ H), Hin.
 Qed.
 
-Lemma inv_find_seen e ig c d s en :
-  Inv e s -> find_seen ig c d s = Some en -> ~ In (e_ncvar en) (dnames e).
-Proof. intros H F. apply find_seen_sound in F as [F _]. apply (i_seen _ _ H), F. Qed.
+(* in the appending pass names are always made unique *)
+Lemma netcdf_name_m_post vr b s : netcdf_name_m (post_mode vr) b s = netcdf_name b s.
+Proof. reflexivity. Qed.
 
-Lemma inv_write_var e m n dims c attrs refs s :
-  ~ In n (names_of e) -> (forall x, In x (rnames refs) -> ~ In x (dnames e)) ->
-  Inv e s -> Inv e (write_var m n dims c attrs refs s).
+Lemma inv_find_seen NN DD e ig c d s en :
+  Inv NN DD e s -> find_seen ig c d s = Some en -> ~ In (e_ncvar en) DD.
+Proof. intros H F. apply find_seen_sound in F as [F _]. apply (i_seen _ _ _ _ H), F. Qed.
+
+Lemma inv_write_var NN DD e vr n dims c attrs refs s :
+  ~ In n NN -> (forall x, In x (rnames refs) -> ~ In x DD) ->
+  Inv NN DD e s -> Inv NN DD e (write_var (post_mode vr) n dims c attrs refs s).
 Proof.
   intros Hn Hr H. unfold write_var. apply inv_create_var; [exact Hn | exact Hr |].
-  apply inv_upd_seen; [|exact H]. simpl. intro Hin. apply Hn, dnames_names, Hin.
+  apply inv_upd_seen; [|exact H]. simpl. intro Hin. apply Hn, (i_dn _ _ _ _ H), Hin.
 Qed.
 
 Ltac inv_name H :=
+  rewrite ?netcdf_name_m_post;
   match goal with |- context [netcdf_name ?b ?s0] =>
     let Hi := fresh "Hi" in let Hf := fresh "Hf" in let n := fresh "n" in let s1 := fresh "s" in
-    destruct (inv_netcdf_name _ b s0 H) as [Hi Hf]; destruct (netcdf_name b s0) as [n s1];
+    destruct (inv_netcdf_name _ _ _ b s0 H) as [Hi Hf]; destruct (netcdf_name b s0) as [n s1];
     cbn [fst snd] in Hi, Hf end.
 
 (* _write_bounds, after the bounds dimension has been chosen *)
@@ -1156,7 +1171,7 @@ Definition wb_tail (m : mode) (k : cst) (c : content) (cdims : list string) (cva
     let isnew := negb (smem bdim (map fst (w_dimsz s1))) in
     let s2 := if isnew then create_dim m bdim size (upd_dimsz (cons (bdim, size)) s1) else s1 in
     let default := if isnew then (cvar ++ "_bounds")%string else "bounds" in
-    let '(bv, s3) := netcdf_name (match k_bvar k with Some n => n | None => default end) s2 in
+    let '(bv, s3) := netcdf_name_m m (match k_bvar k with Some n => n | None => default end) s2 in
     let attrs := filter (fun p => negb (smem (fst p) c17_omit_bounds_props &&
                                         option_eqb String.eqb (prop_of (c_props c) (fst p)) (Some (snd p))))
                         (b_props b) in
@@ -1174,179 +1189,180 @@ Lemma write_bounds_tail m k c cd cv s :
     match find (fun d => match k_bdim k with Some n => String.eqb d n | None => true end &&
                          option_eqb Z.eqb (dim_size s d) (Some size)) (w_bdims s) with
     | Some d => wb_tail m k c cd cv b d s
-    | None => wb_tail m k c cd cv b (fst (netcdf_name base s)) (upd_bdims (fun l => l ++ [fst (netcdf_name base s)]) (snd (netcdf_name base s)))
+    | None => wb_tail m k c cd cv b (fst (netcdf_name_m m base s)) (upd_bdims (fun l => l ++ [fst (netcdf_name_m m base s)]) (snd (netcdf_name_m m base s)))
     end
   end.
 Proof.
   unfold write_bounds. destruct (c_bnd c) as [b|]; [|reflexivity].
   cbv zeta. destruct (find _ (w_bdims s)); [reflexivity|].
-  destruct (netcdf_name _ s). reflexivity.
+  destruct (netcdf_name_m _ _ s). reflexivity.
 Qed.
 
-Definition refs_ok (e : file) (refs : list (string * list (string * string))) : Prop :=
-  forall x, In x (rnames refs) -> ~ In x (dnames e).
+Definition refs_ok (DD : list string) (refs : list (string * list (string * string))) : Prop :=
+  forall x, In x (rnames refs) -> ~ In x DD.
 
-Lemma inv_wb_tail e m k c cd cv b bdim s :
-  Inv e s -> Inv e (snd (wb_tail m k c cd cv b bdim s)) /\ refs_ok e (fst (wb_tail m k c cd cv b bdim s)).
+Lemma inv_wb_tail NN DD e vr k c cd cv b bdim s :
+  Inv NN DD e s -> Inv NN DD e (snd (wb_tail (post_mode vr) k c cd cv b bdim s)) /\ refs_ok DD (fst (wb_tail (post_mode vr) k c cd cv b bdim s)).
 Proof.
   intro H. unfold wb_tail. cbv zeta.
   destruct (find_seen false (bnd_content b) (Some (cd ++ [bdim])) s) as [en|] eqn:F.
-  - pose proof (inv_find_seen _ _ _ _ _ _ H F) as Hn. simpl. split.
+  - pose proof (inv_find_seen _ _ _ _ _ _ _ _ H F) as Hn. simpl. split.
     + apply inv_upd_bnds; [exact Hn | exact H].
     + intros x [<- | []]. exact Hn.
   - set (s2 := if negb (smem bdim (map fst (w_dimsz s))) then _ else s).
-    assert (H2 : Inv e s2).
+    assert (H2 : Inv NN DD e s2).
     { unfold s2. destruct (negb _); [|exact H]. apply inv_create_dim, inv_upd_dimsz, H. }
     inv_name H2. simpl. split.
-    + apply inv_upd_bnds; [simpl; intro Hin; apply Hf, dnames_names, Hin|].
+    + apply inv_upd_bnds; [simpl; intro Hin; apply Hf, (i_dn _ _ _ _ H), Hin|].
       apply inv_write_var; [exact Hf | intros x [] | exact Hi].
-    + intros x [<- | []]. intro Hin. apply Hf, dnames_names, Hin.
+    + intros x [<- | []]. intro Hin. apply Hf, (i_dn _ _ _ _ H), Hin.
 Qed.
 
-Lemma inv_write_bounds e m k c cd cv s :
-  Inv e s -> Inv e (snd (write_bounds m k c cd cv s)) /\ refs_ok e (fst (write_bounds m k c cd cv s)).
+Lemma inv_write_bounds NN DD e vr k c cd cv s :
+  Inv NN DD e s -> Inv NN DD e (snd (write_bounds (post_mode vr) k c cd cv s)) /\ refs_ok DD (fst (write_bounds (post_mode vr) k c cd cv s)).
 Proof.
   intro H. rewrite write_bounds_tail. destruct (c_bnd c) as [b|]; [|simpl; split; [exact H | intros x []]].
   cbv zeta. destruct (find _ (w_bdims s)).
   - apply inv_wb_tail, H.
-  - apply inv_wb_tail, inv_upd_bdims. apply (inv_netcdf_name e _ s H).
+  - apply inv_wb_tail, inv_upd_bdims. apply (inv_netcdf_name NN DD e _ s H).
 Qed.
 
 Ltac inv_bounds H :=
-  match goal with |- context [write_bounds ?m ?k ?c ?cd ?cv ?s0] =>
+  match goal with |- context [write_bounds (post_mode ?v) ?k ?c ?cd ?cv ?s0] =>
     let Hi := fresh "Hbi" in let Hr := fresh "Hbr" in let ex := fresh "ex" in let s1 := fresh "s" in
-    destruct (inv_write_bounds _ m k c cd cv s0 H) as [Hi Hr]; destruct (write_bounds m k c cd cv s0) as [ex s1];
+    destruct (inv_write_bounds _ _ _ v k c cd cv s0 H) as [Hi Hr]; destruct (write_bounds (post_mode v) k c cd cv s0) as [ex s1];
     cbn [fst snd] in Hi, Hr end.
 
-Definition name_ok (e : file) (n : string) : Prop := ~ In n (dnames e).
+Definition name_ok (DD : list string) (n : string) : Prop := ~ In n DD.
 
-Lemma fresh_ok e n : ~ In n (names_of e) -> name_ok e n.
-Proof. intros H Hin. apply H, dnames_names, Hin. Qed.
+Lemma fresh_ok NN DD n : (forall x, In x DD -> In x NN) -> ~ In n NN -> name_ok DD n.
+Proof. intros HD H Hin. apply H, HD, Hin. Qed.
 
 (* every construct writer: the invariant is kept and the variable returned
    is not a data variable of E *)
-Lemma inv_write_dimcoord e m used ax k c s :
-  fx_dimname (m_var m) = true -> Inv e s ->
-  Inv e (snd (write_dimcoord m used ax k c s)) /\ name_ok e (fst (fst (write_dimcoord m used ax k c s))).
+Lemma inv_write_dimcoord NN DD e vr used ax k c s :
+  fx_dimname (m_var (post_mode vr)) = true -> Inv NN DD e s ->
+  Inv NN DD e (snd (write_dimcoord (post_mode vr) used ax k c s)) /\ name_ok DD (fst (fst (write_dimcoord (post_mode vr) used ax k c s))).
 Proof.
   intros Hfx H. unfold write_dimcoord.
-  assert (C : forall en, find_seen false c None s = Some en -> name_ok e (e_ncvar en))
+  assert (C : forall en, find_seen false c None s = Some en -> name_ok DD (e_ncvar en))
     by (intros en F; eapply inv_find_seen; eassumption).
-  assert (N : let '(nv, s1) := dimcoord_name m ax k c s in Inv e s1 /\ ~ In nv (names_of e)).
+  assert (N : let '(nv, s1) := dimcoord_name (post_mode vr) ax k c s in Inv NN DD e s1 /\ ~ In nv NN).
   { unfold dimcoord_name. rewrite Hfx.
     destruct (a_ncdim ax); destruct (k_ncvar k); try destruct (name_of k c None);
+      rewrite ?netcdf_name_m_post;
       match goal with |- context [netcdf_name ?b s] =>
-        pose proof (inv_netcdf_name e b s H) as X; destruct (netcdf_name b s); exact X end. }
-  assert (G : let '(nv, s1) := dimcoord_name m ax k c s in
-              let s2 := create_dim m nv (a_size ax) (upd_dimsz (cons (nv, a_size ax)) s1) in
-              let '(extra, s3) := write_bounds m k c [nv] nv s2 in
-              Inv e (write_var m nv [nv] c (c_props c) extra s3) /\ name_ok e nv).
-  { destruct (dimcoord_name m ax k c s) as [nv s1]. destruct N as [N1 N2]. cbv zeta.
-    assert (H2 : Inv e (create_dim m nv (a_size ax) (upd_dimsz (cons (nv, a_size ax)) s1)))
+        pose proof (inv_netcdf_name NN DD e b s H) as X; destruct (netcdf_name b s); exact X end. }
+  assert (G : let '(nv, s1) := dimcoord_name (post_mode vr) ax k c s in
+              let s2 := create_dim (post_mode vr) nv (a_size ax) (upd_dimsz (cons (nv, a_size ax)) s1) in
+              let '(extra, s3) := write_bounds (post_mode vr) k c [nv] nv s2 in
+              Inv NN DD e (write_var (post_mode vr) nv [nv] c (c_props c) extra s3) /\ name_ok DD nv).
+  { destruct (dimcoord_name (post_mode vr) ax k c s) as [nv s1]. destruct N as [N1 N2]. cbv zeta.
+    assert (H2 : Inv NN DD e (create_dim (post_mode vr) nv (a_size ax) (upd_dimsz (cons (nv, a_size ax)) s1)))
       by (apply inv_create_dim, inv_upd_dimsz, N1).
-    inv_bounds H2. split; [|apply fresh_ok, N2].
+    inv_bounds H2. split; [|apply (fresh_ok NN DD _ (i_dn _ _ _ _ H)), N2].
     apply inv_write_var; assumption. }
   destruct (find_seen false c None s) as [en|] eqn:F.
   - specialize (C en eq_refl). destruct (e_ncdims en) as [|d0 r].
     + simpl. auto.
     + destruct (String.eqb (e_ncvar en) d0 && negb (smem d0 used)); [simpl; auto|].
-      destruct (dimcoord_name m ax k c s) as [nv s1]. cbv zeta in G.
+      destruct (dimcoord_name (post_mode vr) ax k c s) as [nv s1]. cbv zeta in G.
       destruct (write_bounds _ _ _ _ _ _). exact G.
-  - destruct (dimcoord_name m ax k c s) as [nv s1]. cbv zeta in G.
+  - destruct (dimcoord_name (post_mode vr) ax k c s) as [nv s1]. cbv zeta in G.
     destruct (write_bounds _ _ _ _ _ _). exact G.
 Qed.
 
-Lemma inv_write_scalar e m k c s :
-  Inv e s -> Inv e (snd (write_scalar m k c s)) /\ name_ok e (fst (write_scalar m k c s)).
+Lemma inv_write_scalar NN DD e vr k c s :
+  Inv NN DD e s -> Inv NN DD e (snd (write_scalar (post_mode vr) k c s)) /\ name_ok DD (fst (write_scalar (post_mode vr) k c s)).
 Proof.
   intro H. unfold write_scalar. destruct (find_seen _ _ _ s) as [en|] eqn:F.
   - simpl. split; [exact H | eapply inv_find_seen; eassumption].
-  - inv_name H. inv_bounds Hi. simpl. split; [|apply fresh_ok, Hf].
+  - inv_name H. inv_bounds Hi. simpl. split; [|apply (fresh_ok NN DD _ (i_dn _ _ _ _ H)), Hf].
     apply inv_write_var; assumption.
 Qed.
 
-Lemma inv_write_aux e m k d s :
-  Inv e s -> Inv e (snd (write_aux m k d s)) /\ name_ok e (fst (write_aux m k d s)).
+Lemma inv_write_aux NN DD e vr k d s :
+  Inv NN DD e s -> Inv NN DD e (snd (write_aux (post_mode vr) k d s)) /\ name_ok DD (fst (write_aux (post_mode vr) k d s)).
 Proof.
   intro H. unfold write_aux. destruct (find_seen _ _ _ s) as [en|] eqn:F.
   - simpl. split; [exact H | eapply inv_find_seen; eassumption].
-  - inv_name H. inv_bounds Hi. simpl. split; [|apply fresh_ok, Hf].
+  - inv_name H. inv_bounds Hi. simpl. split; [|apply (fresh_ok NN DD _ (i_dn _ _ _ _ H)), Hf].
     apply inv_write_var; assumption.
 Qed.
 
-Lemma inv_write_anc e m k d df s :
-  Inv e s -> Inv e (snd (write_anc m k d df s)) /\ name_ok e (fst (write_anc m k d df s)).
+Lemma inv_write_anc NN DD e vr k d df s :
+  Inv NN DD e s -> Inv NN DD e (snd (write_anc (post_mode vr) k d df s)) /\ name_ok DD (fst (write_anc (post_mode vr) k d df s)).
 Proof.
   intro H. unfold write_anc. destruct (find_seen _ _ _ s) as [en|] eqn:F.
   - simpl. split; [exact H | eapply inv_find_seen; eassumption].
-  - inv_name H. inv_bounds Hi. simpl. split; [|apply fresh_ok, Hf].
+  - inv_name H. inv_bounds Hi. simpl. split; [|apply (fresh_ok NN DD _ (i_dn _ _ _ _ H)), Hf].
     apply inv_write_var; assumption.
 Qed.
 
-Lemma inv_write_msr e m k d s :
-  Inv e s -> Inv e (snd (write_msr m k d s)) /\ name_ok e (fst (write_msr m k d s)).
+Lemma inv_write_msr NN DD e vr k d s :
+  Inv NN DD e s -> Inv NN DD e (snd (write_msr (post_mode vr) k d s)) /\ name_ok DD (fst (write_msr (post_mode vr) k d s)).
 Proof.
   intro H. unfold write_msr. destruct (find_seen _ _ _ s) as [en|] eqn:F.
   - simpl. split; [exact H | eapply inv_find_seen; eassumption].
-  - inv_name H. simpl. split; [|apply fresh_ok, Hf].
+  - inv_name H. simpl. split; [|apply (fresh_ok NN DD _ (i_dn _ _ _ _ H)), Hf].
     apply inv_write_var; [exact Hf | intros x [] | exact Hi].
 Qed.
 
-Definition names_ok (e : file) (l : list string) : Prop := forall n, In n l -> name_ok e n.
+Definition names_ok (DD : list string) (l : list string) : Prop := forall n, In n l -> name_ok DD n.
 
-Lemma inv_write_axis e m f dims i ax x s :
-  fx_dimname (m_var m) = true -> Inv e s -> names_ok e (x_coords x) ->
-  Inv e (snd (write_axis m f dims i ax (x, s))) /\ names_ok e (x_coords (fst (write_axis m f dims i ax (x, s)))).
+Lemma inv_write_axis NN DD e vr f dims i ax x s :
+  fx_dimname (m_var (post_mode vr)) = true -> Inv NN DD e s -> names_ok DD (x_coords x) ->
+  Inv NN DD e (snd (write_axis (post_mode vr) f dims i ax (x, s))) /\ names_ok DD (x_coords (fst (write_axis (post_mode vr) f dims i ax (x, s)))).
 Proof.
   intros Hfx H Hx. unfold write_axis. destruct (dim_for i dims 0) as [[p k]|].
   - destruct (nmem i (f_daxes f)).
-    + destruct (inv_write_dimcoord e m (map snd (x_a2d x)) ax k (k_c k) s Hfx H) as [A _].
-      destruct (write_dimcoord m (map snd (x_a2d x)) ax k (k_c k) s) as [[nv nd] s1]. simpl in *. auto.
-    + destruct (inv_write_scalar e m k (k_c k) s H) as [A B].
-      destruct (write_scalar m k (k_c k) s) as [nv s1]. simpl in *. split; [exact A|].
+    + destruct (inv_write_dimcoord NN DD e vr (map snd (x_a2d x)) ax k (k_c k) s Hfx H) as [A _].
+      destruct (write_dimcoord (post_mode vr) (map snd (x_a2d x)) ax k (k_c k) s) as [[nv nd] s1]. simpl in *. auto.
+    + destruct (inv_write_scalar NN DD e vr k (k_c k) s H) as [A B].
+      destruct (write_scalar (post_mode vr) k (k_c k) s) as [nv s1]. simpl in *. split; [exact A|].
       intros n Hn. apply in_app_or in Hn as [Hn | [<- | []]]; auto.
   - destruct (nmem i (f_daxes f)); [|simpl; auto].
-    destruct (pick_dim m f i ax x s); [simpl; auto|].
+    destruct (pick_dim (post_mode vr) f i ax x s); [simpl; auto|].
     inv_name H. simpl. split; [|exact Hx]. apply inv_create_dim, inv_upd_dimsz, Hi.
 Qed.
 
-Lemma inv_write_axes e m f dims axs : forall i x s,
-  fx_dimname (m_var m) = true -> Inv e s -> names_ok e (x_coords x) ->
-  Inv e (snd (write_axes m f dims i axs (x, s))) /\ names_ok e (x_coords (fst (write_axes m f dims i axs (x, s)))).
+Lemma inv_write_axes NN DD e vr f dims axs : forall i x s,
+  fx_dimname (m_var (post_mode vr)) = true -> Inv NN DD e s -> names_ok DD (x_coords x) ->
+  Inv NN DD e (snd (write_axes (post_mode vr) f dims i axs (x, s))) /\ names_ok DD (x_coords (fst (write_axes (post_mode vr) f dims i axs (x, s)))).
 Proof.
   induction axs as [|ax r IH]; intros i x s Hfx H Hx; cbn [write_axes]; [simpl; auto|].
-  destruct (inv_write_axis e m f dims i ax x s Hfx H Hx) as [A B].
-  destruct (write_axis m f dims i ax (x, s)) as [x1 s1]. simpl in A, B. apply IH; assumption.
+  destruct (inv_write_axis NN DD e vr f dims i ax x s Hfx H Hx) as [A B].
+  destruct (write_axis (post_mode vr) f dims i ax (x, s)) as [x1 s1]. simpl in A, B. apply IH; assumption.
 Qed.
 
-Lemma inv_write_auxs e m x l : forall acc s,
-  Inv e s -> names_ok e acc ->
-  Inv e (snd (write_auxs m x l acc s)) /\ names_ok e (fst (write_auxs m x l acc s)).
+Lemma inv_write_auxs NN DD e vr x l : forall acc s,
+  Inv NN DD e s -> names_ok DD acc ->
+  Inv NN DD e (snd (write_auxs (post_mode vr) x l acc s)) /\ names_ok DD (fst (write_auxs (post_mode vr) x l acc s)).
 Proof.
   induction l as [|k r IH]; intros acc s H Ha; cbn [write_auxs]; [simpl; auto|].
-  destruct (inv_write_aux e m k (dims_of x (k_axes k)) s H) as [A B].
-  destruct (write_aux m k (dims_of x (k_axes k)) s) as [nv s1]. simpl in A, B. apply IH; [exact A|].
+  destruct (inv_write_aux NN DD e vr k (dims_of x (k_axes k)) s H) as [A B].
+  destruct (write_aux (post_mode vr) k (dims_of x (k_axes k)) s) as [nv s1]. simpl in A, B. apply IH; [exact A|].
   intros n Hn. apply in_app_or in Hn as [Hn | [<- | []]]; auto.
 Qed.
 
-Lemma inv_write_ancs e m f x l : forall p acc s,
-  Inv e s -> names_ok e acc ->
-  Inv e (snd (write_ancs m f x l p acc s)) /\ names_ok e (fst (write_ancs m f x l p acc s)).
+Lemma inv_write_ancs NN DD e vr f x l : forall p acc s,
+  Inv NN DD e s -> names_ok DD acc ->
+  Inv NN DD e (snd (write_ancs (post_mode vr) f x l p acc s)) /\ names_ok DD (fst (write_ancs (post_mode vr) f x l p acc s)).
 Proof.
   induction l as [|k r IH]; intros p acc s H Ha; cbn [write_ancs]; [simpl; auto|].
-  destruct (inv_write_anc e m k (dims_of x (k_axes k)) (anc_default f p) s H) as [A B].
-  destruct (write_anc m k (dims_of x (k_axes k)) (anc_default f p) s) as [nv s1]. simpl in A, B.
+  destruct (inv_write_anc NN DD e vr k (dims_of x (k_axes k)) (anc_default f p) s H) as [A B].
+  destruct (write_anc (post_mode vr) k (dims_of x (k_axes k)) (anc_default f p) s) as [nv s1]. simpl in A, B.
   apply IH; [exact A|].
   intros n Hn. apply in_app_or in Hn as [Hn | [<- | []]]; auto.
 Qed.
 
-Lemma inv_write_msrs e m x l : forall acc s,
-  Inv e s -> names_ok e (map snd acc) ->
-  Inv e (snd (write_msrs m x l acc s)) /\ names_ok e (map snd (fst (write_msrs m x l acc s))).
+Lemma inv_write_msrs NN DD e vr x l : forall acc s,
+  Inv NN DD e s -> names_ok DD (map snd acc) ->
+  Inv NN DD e (snd (write_msrs (post_mode vr) x l acc s)) /\ names_ok DD (map snd (fst (write_msrs (post_mode vr) x l acc s))).
 Proof.
   induction l as [|k r IH]; intros acc s H Ha; cbn [write_msrs]; [simpl; auto|].
-  destruct (inv_write_msr e m k (dims_of x (k_axes k)) s H) as [A B].
-  destruct (write_msr m k (dims_of x (k_axes k)) s) as [nv s1]. simpl in A, B. apply IH; [exact A|].
+  destruct (inv_write_msr NN DD e vr k (dims_of x (k_axes k)) s H) as [A B].
+  destruct (write_msr (post_mode vr) k (dims_of x (k_axes k)) s) as [nv s1]. simpl in A, B. apply IH; [exact A|].
   intros n Hn. rewrite map_app in Hn. apply in_app_or in Hn as [Hn | [<- | []]]; auto.
 Qed.
 
@@ -1359,9 +1375,9 @@ Qed.
 
 (* the names in a formula_terms attribute: variables of domain ancillaries
    or their registered bounds variables *)
-Lemma ft_terms_ok e f r ko av s :
-  Inv e s -> names_ok e av ->
-  names_ok e (map snd (map fst (ft_terms f r ko av s))) /\ names_ok e (map snd (map snd (ft_terms f r ko av s))).
+Lemma ft_terms_ok NN DD e f r ko av s :
+  Inv NN DD e s -> names_ok DD av ->
+  names_ok DD (map snd (map fst (ft_terms f r ko av s))) /\ names_ok DD (map snd (map snd (ft_terms f r ko av s))).
 Proof.
   intros H Ha. unfold ft_terms. set (z := hd 0%nat (k_axes ko)).
   induction (r_terms r) as [|t ts IH]; [split; intros n []|].
@@ -1369,24 +1385,24 @@ Proof.
   destruct (snd t) as [j|]; [|simpl; auto].
   destruct (nth_error av j) as [nv|] eqn:En; [|simpl; auto].
   destruct (nth_error (f_anc f) j) as [ka|]; [|simpl; auto].
-  assert (Hnv : name_ok e nv) by (apply Ha; eapply nth_error_In; eassumption).
+  assert (Hnv : name_ok DD nv) by (apply Ha; eapply nth_error_In; eassumption).
   split; intros n Hn; apply in_app_or in Hn as [Hn | Hn]; auto; destruct Hn as [<- | []]; simpl; [exact Hnv|].
   destruct (assoc nv (w_bnds s)) as [bn|] eqn:Eb; [|exact Hnv].
   destruct (nmem z (k_axes ka)); [|exact Hnv].
-  apply assoc_In in Eb. apply (i_bnds _ _ H (nv, bn)), Eb.
+  apply assoc_In in Eb. apply (i_bnds _ _ _ _ H (nv, bn)), Eb.
 Qed.
 
-Lemma inv_write_formula e m f dims x av s :
-  Inv e s -> names_ok e av -> Inv e (write_formula m f dims x av s).
+Lemma inv_write_formula NN DD e vr f dims x av s :
+  Inv NN DD e s -> names_ok DD av -> Inv NN DD e (write_formula (post_mode vr) f dims x av s).
 Proof.
   intros H Ha. unfold write_formula. destruct (f_ref f) as [r|]; [|exact H].
   destruct (nth_error dims (r_owner r)) as [ko|]; [|exact H].
   destruct (option_eqb _ _ _); [|exact H].
-  destruct (ft_terms_ok e f r ko av s H Ha) as [T1 T2].
+  destruct (ft_terms_ok NN DD e f r ko av s H Ha) as [T1 T2].
   destruct (ft_terms f r ko av s) as [|t ts]; [exact H|].
   destruct (lookup_nat _ _) as [ov|]; [|exact H].
-  destruct (negb (m_post m) || fx_formula (m_var m)).
-  - assert (H1 : Inv e (set_created_ref m ov "formula_terms" (map fst (t :: ts)) s))
+  destruct (negb (m_post (post_mode vr)) || fx_formula (m_var (post_mode vr))).
+  - assert (H1 : Inv NN DD e (set_created_ref (post_mode vr) ov "formula_terms" (map fst (t :: ts)) s))
       by (apply inv_set_created_ref; [exact T1 | exact H]).
     destruct (assoc ov (w_bnds s)); [|exact H1].
     apply inv_set_created_ref; [exact T2 | exact H1].
@@ -1396,23 +1412,23 @@ Qed.
 Lemma rnames_app a b : rnames (a ++ b) = rnames a ++ rnames b.
 Proof. unfold rnames. rewrite map_app, concat_app. reflexivity. Qed.
 
-Lemma inv_write_field e m f s :
-  fx_dimname (m_var m) = true -> Inv e s -> Inv e (write_field m f s).
+Lemma inv_write_field NN DD e vr f s :
+  fx_dimname (m_var (post_mode vr)) = true -> Inv NN DD e s -> Inv NN DD e (write_field (post_mode vr) f s).
 Proof.
   intros Hfx H. unfold write_field. destruct (add_csn f) as [dims bad].
   set (s0 := if bad then set_err s else s).
-  assert (H0 : Inv e s0) by (unfold s0; destruct bad; [apply inv_set_err, H | exact H]).
-  destruct (inv_write_axes e m f dims (f_axes f) 0
+  assert (H0 : Inv NN DD e s0) by (unfold s0; destruct bad; [apply inv_set_err, H | exact H]).
+  destruct (inv_write_axes NN DD e vr f dims (f_axes f) 0
               {| x_a2d := []; x_dimvar := []; x_coords := []; x_span := [] |} s0 Hfx H0) as [H1 X1];
     [intros n []|].
-  destruct (write_axes m f dims 0 (f_axes f) _) as [x s1]. simpl in H1, X1.
-  destruct (inv_write_auxs e m x (f_aux f) (x_coords x) s1 H1 X1) as [H2 X2].
-  destruct (write_auxs m x (f_aux f) (x_coords x) s1) as [coords s2]. simpl in H2, X2.
-  destruct (inv_write_ancs e m f x (f_anc f) 0 [] s2 H2) as [H3 X3]; [intros n []|].
-  destruct (write_ancs m f x (f_anc f) 0 [] s2) as [ancvars s3]. simpl in H3, X3.
-  destruct (inv_write_msrs e m x (f_msr f) [] s3 H3) as [H4 X4]; [intros n []|].
-  destruct (write_msrs m x (f_msr f) [] s3) as [msrs s4]. simpl in H4, X4.
-  pose proof (inv_write_formula e m f dims x ancvars s4 H4 X3) as H5.
+  destruct (write_axes (post_mode vr) f dims 0 (f_axes f) _) as [x s1]. simpl in H1, X1.
+  destruct (inv_write_auxs NN DD e vr x (f_aux f) (x_coords x) s1 H1 X1) as [H2 X2].
+  destruct (write_auxs (post_mode vr) x (f_aux f) (x_coords x) s1) as [coords s2]. simpl in H2, X2.
+  destruct (inv_write_ancs NN DD e vr f x (f_anc f) 0 [] s2 H2) as [H3 X3]; [intros n []|].
+  destruct (write_ancs (post_mode vr) f x (f_anc f) 0 [] s2) as [ancvars s3]. simpl in H3, X3.
+  destruct (inv_write_msrs NN DD e vr x (f_msr f) [] s3 H3) as [H4 X4]; [intros n []|].
+  destruct (write_msrs (post_mode vr) x (f_msr f) [] s3) as [msrs s4]. simpl in H4, X4.
+  pose proof (inv_write_formula NN DD e vr f dims x ancvars s4 H4 X3) as H5.
   inv_name H5.
   apply inv_upd_span, inv_create_var; [exact Hf | | exact Hi].
   unfold ref_names. cbn [v_refs]. fold (rnames ((match msrs with [] => [] | _ => [("cell_measures", msrs)] end) ++
@@ -1424,19 +1440,19 @@ Proof.
     rewrite app_nil_r, map_map in Hy. cbn [snd] in Hy. rewrite map_id in Hy. apply X2, Hy.
 Qed.
 
-Lemma inv_write_fields e m fs : forall s,
-  fx_dimname (m_var m) = true -> Inv e s -> Inv e (write_fields m fs s).
+Lemma inv_write_fields NN DD e vr fs : forall s,
+  fx_dimname (m_var (post_mode vr)) = true -> Inv NN DD e s -> Inv NN DD e (write_fields (post_mode vr) fs s).
 Proof.
   unfold write_fields. induction fs as [|f r IH]; intros s Hfx H; simpl; [exact H|].
   apply IH; [exact Hfx | apply inv_write_field; assumption].
 Qed.
 
-Lemma inv_write_globals e m o fs s : Inv e s -> Inv e (write_globals m o fs s).
+Lemma inv_write_globals NN DD e vr o fs s : Inv NN DD e s -> Inv NN DD e (write_globals (post_mode vr) o fs s).
 Proof.
   intro H. unfold write_globals. destruct fs as [|f0 r]; [apply inv_set_err, H|].
   destruct (conv_value o (f0 :: r)); [|apply inv_set_err, H].
-  apply inv_set_gl. destruct (negb (m_dry m) && negb (m_post m) && negb (w_err s)); [|exact H].
-  destruct H as [H1 H2 H3 H4 H5]. constructor; auto.
+  apply inv_set_gl. destruct (negb (m_dry (post_mode vr)) && negb (m_post (post_mode vr)) && negb (w_err s)); [|exact H].
+  destruct H as [Hdn Hvn H1 H2 H3 H4 H5]. constructor; auto.
 Qed.
 
 Lemma dry_run_file vr e orig : w_file (dry_run vr e orig) = e.
@@ -1445,7 +1461,24 @@ Proof.
   rewrite (sm_write_fields (dry_mode vr) eq_refl orig (log [EOpenR] (init e))). reflexivity.
 Qed.
 
-Lemma covers_inv vr e orig : covers vr e orig = true -> Inv e (dry_run vr e orig).
+Lemma dnames_names e n : In n (dnames e) -> In n (names_of e).
+Proof.
+  unfold dnames, names_of, data_vars. intro H. apply in_map_iff in H as [v [<- Hv]].
+  apply filter_In in Hv as [Hv _]. apply in_or_app. right. apply in_or_app. left. apply in_map, Hv.
+Qed.
+
+Lemma varnames_names e n : In n (map v_name (d_vars e)) -> In n (names_of e).
+Proof. intro H. unfold names_of. apply in_or_app. right. apply in_or_app. left. exact H. Qed.
+
+Lemma inv_register_names NN DD vr e0 e s : Inv NN DD e s -> Inv NN DD e (register_names vr e0 s).
+Proof.
+  intros [Hdn Hvn H1 H2 H3 H4 H5]. unfold register_names. destruct (fx_names vr); constructor; auto.
+  intros x Hx. specialize (H1 x Hx). unfold existing in *. simpl.
+  apply in_app_or in H1 as [H1 | H1]; apply in_or_app; [left; apply in_or_app; right | right]; exact H1.
+Qed.
+
+Lemma covers_inv vr e orig :
+  covers vr e orig = true -> Inv (names_of e) (dnames e) e (dry_run vr e orig).
 Proof.
   unfold covers. set (s := dry_run vr e orig). intro H.
   apply andb_true_iff in H as [H _].
@@ -1453,11 +1486,32 @@ Proof.
   rewrite forallb_forall in Hn, Hs, Hb.
   destruct (proj1 (le_dry_run vr e orig) e (ext_init e)) as (_ & _ & _ & Hc). fold s in Hc.
   constructor.
+  - apply dnames_names.
+  - apply varnames_names.
   - intros n Hin. apply smem_In, Hn, Hin.
   - intros en Hin. apply smem_false, negb_true_iff, Hs, Hin.
   - intros p Hin. apply smem_false, negb_true_iff, Hb, Hin.
   - exact Hc.
   - exists []. unfold s. rewrite dry_run_file. split; [symmetry; apply app_nil_r | intros w []].
+Qed.
+
+(* with C17-fix3-2, unconditionally: once the names of the dataset have been
+   registered, the invariant holds for N = the variable and dimension names of
+   E (and no constraint on what is referenced) *)
+Lemma registered_inv vr e orig :
+  fx_names vr = true -> Inv (file_names e) [] e (register_names vr e (dry_run vr e orig)).
+Proof.
+  intro Hfx. unfold register_names. rewrite Hfx.
+  destruct (proj1 (le_dry_run vr e orig) e (ext_init e)) as (_ & _ & _ & Hc).
+  pose proof (dry_run_file vr e orig) as Hf.
+  constructor.
+  - intros n [].
+  - intros n Hn. unfold file_names. apply in_or_app. left. exact Hn.
+  - intros n Hn. unfold existing. cbn [w_names upd_names w_dimsz]. apply in_or_app. left. apply in_or_app. left. exact Hn.
+  - intros en _ [].
+  - intros q _ [].
+  - exact Hc.
+  - exists []. cbn [w_file upd_names]. rewrite Hf. split; [symmetry; apply app_nil_r | intros w []].
 Qed.
 
 Lemma covers_dims vr e orig v d :
@@ -1494,18 +1548,40 @@ Proof.
   - apply in_concat. eexists. split; [apply in_map, Hv | exact Hx].
 Qed.
 
+Lemma append_run_inv_gen NN DD vr nc4 o e orig new :
+  fx_dimname vr = true -> Inv NN DD e (register_names vr e (dry_run vr e orig)) ->
+  exists vv, d_vars (w_file (append_run vr nc4 o e orig new)) = d_vars e ++ vv /\
+             forall w, In w vv -> ~ In (v_name w) NN /\ forall n, In n (ref_names w) -> ~ In n DD.
+Proof.
+  intros Hfx H1. unfold append_run. destruct (refuse vr nc4 orig new).
+  - exists []. simpl. split; [symmetry; apply app_nil_r | intros w []].
+  - destruct (w_err (dry_run vr e orig)).
+    + exists []. rewrite dry_run_file. split; [symmetry; apply app_nil_r | intros w []].
+    + apply (i_file NN DD). apply inv_log, inv_write_fields; [exact Hfx|].
+      apply inv_write_globals, inv_reopen, inv_log, H1.
+Qed.
+
 Lemma append_run_inv vr nc4 o e orig new :
   fx_dimname vr = true -> covers vr e orig = true ->
   exists vv, d_vars (w_file (append_run vr nc4 o e orig new)) = d_vars e ++ vv /\
              forall w, In w vv -> ~ In (v_name w) (names_of e) /\
                                   forall n, In n (ref_names w) -> ~ In n (dnames e).
 Proof.
-  intros Hfx Hc. unfold append_run. destruct (refuse vr nc4 orig new).
-  - exists []. simpl. split; [symmetry; apply app_nil_r | intros w []].
-  - pose proof (covers_inv vr e orig Hc) as H1.
-    destruct (w_err (dry_run vr e orig)); [exact (i_file _ _ H1)|].
-    apply i_file. apply inv_log, inv_write_fields; [exact Hfx|].
-    apply inv_write_globals, inv_reopen, inv_log, H1.
+  intros Hfx Hc. apply append_run_inv_gen; [exact Hfx|].
+  apply inv_register_names, covers_inv, Hc.
+Qed.
+
+(* C17-fix3-2: whatever the re-read gave (no hypothesis on it), no variable
+   created by an append takes the name of a variable or of a dimension of the
+   dataset *)
+Theorem dataset_names_not_reused vr nc4 o e orig new :
+  fx_dimname vr = true -> fx_names vr = true ->
+  exists vv, d_vars (fst (append vr nc4 o e orig new)) = d_vars e ++ vv /\
+             forall w, In w vv -> ~ In (v_name w) (file_names e).
+Proof.
+  intros Hd Hn. destruct (append_run_inv_gen (file_names e) [] vr nc4 o e orig new Hd (registered_inv vr e orig Hn))
+    as [vv [Hv Hall]].
+  exists vv. split; [exact Hv|]. intros w Hw. apply (Hall w Hw).
 Qed.
 
 (* THE OLD FIELDS: every data variable of E is still a data variable of the
@@ -1544,3 +1620,46 @@ Proof.
   destruct (old_fields_kept vr nc4 (fst n) e (reread e) (snd n) fuel v Hfx (Hc e) Hv) as [A B].
   destruct (IH _ v Hfx Hc A) as [C D]. split; [exact C | rewrite D; exact B].
 Qed.
+
+(* ------------------------------------------------------------------------ *)
+(* 13. The spelling of the mode                                               *)
+(* ------------------------------------------------------------------------ *)
+Theorem append_spellings sp : parse_mode sp = Some ModeA <-> sp = "a" \/ sp = "r+".
+Proof.
+  unfold parse_mode. split.
+  - destruct (String.eqb sp "w") eqn:Ew; [discriminate|].
+    destruct (String.eqb sp "a") eqn:Ea; [intros _; left; apply String.eqb_eq, Ea|].
+    destruct (String.eqb sp "r+") eqn:Er; [intros _; right; apply String.eqb_eq, Er | discriminate].
+  - intros [-> | ->]; reflexivity.
+Qed.
+
+(* the outcome of a call is the same for every accepted spelling of append mode *)
+Theorem mode_spelling_irrelevant vr sp1 sp2 nc4 o e orig new :
+  parse_mode sp1 = Some ModeA -> parse_mode sp2 = Some ModeA ->
+  write_call vr sp1 nc4 o e orig new = write_call vr sp2 nc4 o e orig new.
+Proof. intros H1 H2. unfold write_call. rewrite H1, H2. reflexivity. Qed.
+
+Theorem mode_alias vr nc4 o e orig new :
+  write_call vr "r+" nc4 o e orig new = write_call vr "a" nc4 o e orig new /\
+  fst (write_call vr "r+" nc4 o e orig new) = fst (append vr nc4 o e orig new).
+Proof. unfold write_call. simpl. destruct (append vr nc4 o e orig new). split; reflexivity. Qed.
+
+(* so everything proved about [append] holds for either spelling *)
+Corollary alias_preserves vr sp nc4 o e orig new :
+  parse_mode sp = Some ModeA -> extends e (fst (write_call vr sp nc4 o e orig new)).
+Proof.
+  intro H. unfold write_call. rewrite H. pose proof (preserve vr nc4 o e orig new) as P.
+  destruct (append vr nc4 o e orig new). exact P.
+Qed.
+
+Theorem bad_mode_untouched vr sp nc4 o e orig new :
+  parse_mode sp = None -> write_call vr sp nc4 o e orig new = (e, CBadMode).
+Proof. intro H. unfold write_call. rewrite H. reflexivity. Qed.
+
+(* C17-fix3-4: the dry run registers every name as the construct read from
+   the dataset carries it; the appending pass keeps making names unique *)
+Theorem dry_run_keeps_names vr b s :
+  fx_norename vr = true ->
+  netcdf_name_m (dry_mode vr) b s = (b, upd_names (cons b) s) /\
+  netcdf_name_m (post_mode vr) b s = netcdf_name b s.
+Proof. intro H. unfold netcdf_name_m. simpl. rewrite H. split; reflexivity. Qed.
